@@ -38,11 +38,15 @@ class SumsMixin:
                 ctx.solver.push()
                 mark = len(ctx.pc)
                 ctx.decisions, ctx.pos, ctx.pending = list(d), 0, []
+                from . import values as _v
+                _v.SCOPE_COUNTER = getattr(_v, "SCOPE_COUNTER", 0) + 1
+                _v.SCOPES.append(_v.SCOPE_COUNTER)
                 try:
                     r = body()
                 except Infeasible:
                     r = True
                 finally:
+                    _v.SCOPES.pop()
                     local.extend(ctx.pending)
                     del ctx.pc[mark:]
                     ctx.solver.pop()
@@ -120,9 +124,9 @@ class SumsMixin:
                 key = (ss[a][0].get_id(), ss[b][0].get_id())
                 if key in done:
                     continue
-                done.add(key)
                 try:
-                    self.sum_linear([(1, SReal(ss[a][0])), (-1, SReal(ss[b][0]))])
+                    if self.sum_linear([(1, SReal(ss[a][0])), (-1, SReal(ss[b][0]))]):
+                        done.add(key)       # failures are retried later (more lemmas / invariants may be available)
                 except Unsupported:
-                    pass
+                    done.add(key)
         return ()
